@@ -109,6 +109,18 @@ impl Texture {
 
         let mut dst: Vec<u8>;
 
+        // the dimensions come from the file: make sure the payload really holds that many pixels before allocating for them
+        let pixel_count = header.width as usize * header.height as usize * header.depth as usize;
+        let required_size = match header.format {
+            TextureFormat::B4G4R4A4 => header.width as usize * header.height as usize * 2,
+            TextureFormat::B8G8R8A8 => pixel_count * 4,
+            TextureFormat::BC1 => Texture::block_count(&header) * 8,
+            TextureFormat::BC3 | TextureFormat::BC5 => Texture::block_count(&header) * 16,
+        };
+        if src.len() < required_size {
+            return None;
+        }
+
         match header.format {
             TextureFormat::B4G4R4A4 => {
                 dst =
@@ -166,7 +178,7 @@ impl Texture {
                     header.width as usize,
                     header.height as usize * header.depth as usize,
                     decode_bc1,
-                );
+                )?;
             }
             TextureFormat::BC3 => {
                 dst = Texture::decode(
@@ -174,7 +186,7 @@ impl Texture {
                     header.width as usize,
                     header.height as usize * header.depth as usize,
                     decode_bc3,
-                );
+                )?;
             }
             TextureFormat::BC5 => {
                 dst = Texture::decode(
@@ -182,7 +194,7 @@ impl Texture {
                     header.width as usize,
                     header.height as usize * header.depth as usize,
                     decode_bc5,
-                );
+                )?;
             }
         }
 
@@ -199,17 +211,31 @@ impl Texture {
         })
     }
 
-    fn decode(src: &[u8], width: usize, height: usize, decode_func: DecodeFunction) -> Vec<u8> {
-        let mut image: Vec<u32> = vec![0; width * height];
-        decode_func(src, width, height, &mut image).unwrap();
+    /// Number of 4x4 blocks of a block-compressed texture (all depth slices stacked vertically).
+    fn block_count(header: &TexHeader) -> usize {
+        let width = header.width as usize;
+        let height = header.height as usize * header.depth as usize;
+        width.div_ceil(4) * height.div_ceil(4)
+    }
 
-        image
-            .iter()
-            .flat_map(|x| {
-                let v = x.to_le_bytes();
-                [v[2], v[1], v[0], v[3]]
-            })
-            .collect::<Vec<u8>>()
+    fn decode(
+        src: &[u8],
+        width: usize,
+        height: usize,
+        decode_func: DecodeFunction,
+    ) -> Option<Vec<u8>> {
+        let mut image: Vec<u32> = vec![0; width * height];
+        decode_func(src, width, height, &mut image).ok()?;
+
+        Some(
+            image
+                .iter()
+                .flat_map(|x| {
+                    let v = x.to_le_bytes();
+                    [v[2], v[1], v[0], v[3]]
+                })
+                .collect::<Vec<u8>>(),
+        )
     }
 }
 
